@@ -66,7 +66,7 @@ OPTION_SETS = [
     [], ["--flow"], ["-t"], ["--keep_prep"], ["--power-stats"], ["--comm_summarize_seq"],
     ["-c", "$COMPLOG"], ["-c", "$COMPLOG", "-t"], ["--flow", "--comm_summarize_seq"], ["-I"],
     ["-M"], ["--disable_tb"], ["-O", "drop"], ["--flow", "-c", "$COMPLOG", "--power-stats"], ["--time_unit", "ms"],
-    ["--drop_globals"],
+    ["--drop_globals"], ["-F", "X"], ["-F", "XC"], ["-C"],
 ]
 
 
